@@ -1,0 +1,28 @@
+//go:build verif
+
+// Contracts for package packets, read by /verif/govc (comment-only file; it
+// contributes no declarations). See /verif/DESIGN.md section 2.
+
+package packets
+
+//@ spec hdrOnWire(b []byte) int = ite(b[0] == 1, 4, 2)
+//@ spec be16(b []byte, i int) uint16 = (uint16(b[i]) << 8) | uint16(b[i+1])
+//@ spec hdrLenOf(pktLength uint16) uint16 = ite(pktLength <= 255, 2, 4)
+
+//@ inline (*Header).PacketType
+//@ inline (*Header).HeaderLength
+//@ inline (*Header).VarPartLength
+//@ inline (*Header).PacketLength
+//@ inline IsShortTopic
+//@ inline (*DUPProperty).SetDUP
+//@ inline (*DUPProperty).DUP
+//@ inline NewDUPProperty
+
+//@ func (*Header).Unpack
+//@   nopanic [C20]
+//@   assigns h.pktLength, h.pktType
+//@   ensures [C20] reject_short: len(buf) < 2 ==> result != nil
+//@   ensures [C20] ok_len: result == nil ==> len(buf) >= hdrOnWire(buf)
+//@   ensures [C22] hdrlen: result == nil ==> int(hdrLenOf(h.pktLength)) == hdrOnWire(buf)
+//@   ensures [C20,C22] type: result == nil ==> h.pktType == buf[hdrOnWire(buf)-1]
+//@   ensures [C20,C22] length: result == nil ==> h.pktLength == ite(buf[0] == 1, be16(buf, 1), uint16(buf[0]))
